@@ -608,8 +608,8 @@ func protect(f func()) {
 }
 
 type scriptHdr struct {
-	Hdr  bool   `json:"hdr"`
-	Port int    `json:"port"`
+	Hdr  bool     `json:"hdr"`
+	Port int      `json:"port"`
 	Cip  [2]int   `json:"cip"`
 	Cips [][2]int `json:"cips"`
 	Pool []struct {
@@ -641,7 +641,19 @@ func modeQScripts(in string, caps []int) {
 			panic("script before header")
 		}
 		for _, c := range caps {
-			s := &qSim{port: hdr.Port, cip: ip4(unhalves(hdr.Cip))}
+			// the list is constructed with the configured client address, with none, with a wrong one or with 0.0.0.0;
+			// SetCip operations of the script change it afterwards
+			s := &qSim{port: hdr.Port}
+			switch k % 4 {
+			case 0:
+				s.cip = ip4(unhalves(hdr.Cip))
+			case 1:
+				s.cip = nil
+			case 2:
+				s.cip = ip4(0x0a030004)
+			case 3:
+				s.cip = net.IPv4zero.To4()
+			}
 			seen := map[[2]int]bool{}
 			for _, a := range hdr.Pool {
 				key := [2]int{int(unhalves(a.IP)), a.Port}
@@ -662,6 +674,8 @@ func modeQScripts(in string, caps []int) {
 						s.reset()
 					case "Reload":
 						s.reload(hdr.Lists[o.Li-1])
+					case "SetCip":
+						s.setCip(ipOfHalves(hdr.Cips[o.Li-1]))
 					}
 				}
 			})
@@ -673,7 +687,9 @@ func modeQRandom(n, nops int) {
 	ext := externalip.FirstExternalIP()
 	for t := 0; t < n; t++ {
 		s := &qSim{port: []int{6881, 1, 65535, 50000}[rng.Intn(4)]}
-		switch rng.Intn(6) {
+		switch rng.Intn(7) {
+		case 6: // unspecified
+			s.cip = net.IPv4zero.To4()
 		case 0: // client IP unknown
 		case 1:
 			if ext != nil {
@@ -778,6 +794,17 @@ func modeQRandom(n, nops int) {
 					s.pop()
 				case x < 17:
 					s.reset()
+				case x < 18 && i%2 == 0:
+					switch rng.Intn(5) {
+					case 0:
+						s.setCip(nil)
+					case 1:
+						s.setCip(net.IPv4zero.To4())
+					case 2:
+						s.setCip(ip4(0x50000000 | rng.Uint32()&0x00ffffff))
+					default: // the IP of a pool address: addresses of the pool become the client's own
+						s.setCip(ip4(s.pool[rng.Intn(len(s.pool))].IP))
+					}
 				default:
 					s.reload(mkList())
 				}
@@ -855,6 +882,8 @@ func modeReplay(in string) {
 			bs.query(ips)
 		case "Resolve":
 			bs.resolve([]uint32{unhalves(r.IP)})
+		case "SetCip":
+			protect(func() { qs.setCip(ipOfHalves(r.Cip)) })
 		case "Push":
 			protect(func() { qs.push(r.Addrs, r.S) })
 		case "Pop":
